@@ -350,12 +350,47 @@ pub fn run(ctx: &Ctx) -> CheckResult {
         });
         res.absorb(merge_jobs(outs));
     }
+    // quiet closes (fast and slow averages within 1e-5 of each other): "within 1e-12 relative" is
+    // demanding when the output itself is tiny
+    if !res.out.failed() {
+        let mut qc = vec![];
+        for k in ALL_KINDS {
+            qc.push(k.default_cfg());
+            qc.extend(generic_cfgs(k, &[2, 5], &[2, 5]).into_iter().filter(|c| c.kind.nperiods() < 2 || c.p[0] != c.p[1]));
+        }
+        let outs = par_run(ctx, &qc, |_, cfg| {
+            let mut out = JobOut::default();
+            if scalar_field(cfg.kind).is_none() {
+                return out;
+            }
+            for pat in 0..3usize {
+                let bars: Vec<Bar> = (0..160usize)
+                    .map(|i| {
+                        let w = match pat {
+                            0 => ((i * 7) % 13) as f64 - 6.0,
+                            1 => if i % 2 == 0 { 1.0 } else { -1.0 },
+                            _ => ((i / 5) % 9) as f64 - 4.0,
+                        };
+                        let c = 100.0 * (1.0 + 1e-6 * w);
+                        Bar { o: c * 0.5, h: c * 1.5 + i as f64, l: c * 0.25, c, v: 1.0 + (i % 3) as f64 }
+                    })
+                    .collect();
+                out.stats.states += 1;
+                check_seq(cfg, &bars, &mut out);
+                if out.failed() {
+                    break;
+                }
+            }
+            out
+        });
+        res.absorb(merge_jobs(outs));
+    }
     if !res.out.failed() {
         surface(&mut res);
     }
     res.extra.insert("documented_fields".into(), json!(ALL_KINDS.iter().map(|k| (k.name().to_string(), format!("{:?}", documented(*k)))).collect::<std::collections::BTreeMap<_, _>>()));
     res.rule = "case = (configuration, bar sequence): outputs of Next<&T> on bars whose five fields vary independently compared (1e-12 relative) with (i) Next<f64> on the documented field, (iii) the same sequence with every undocumented field replaced (all at once finite / NaN, and one at a time), (iv) a second implementor storing integers, and DataItem on valid bars; (ii) one-price bars vs scalar path; non-trivial = perturbation comparisons".into();
-    res.bounds = format!("all 22 indicators, periods {{1,3}}; all 10^{depth} sequences over B_free (incl. zero and negative closes, highs, volumes); one-price: all 5^{} scalar sequences over {{1,2.5,0.1,7,-3}} and over {{1, 0.75, 0.75+1ulp, 2e-17, 3e-17}} for FAST_STOCH/SLOW_STOCH/TR/ATR/KC n in {{1,2,3,5}}; DataItem: all 12^{} sequences of valid bars (incl. open/close within 1e-9 of an extreme)", if th { 7 } else { 6 }, if th { 5 } else { 4 });
+    res.bounds = format!("all 22 indicators, periods {{1,3}}; all 10^{depth} sequences over B_free (incl. zero and negative closes, highs, volumes); three 160-bar streams of quiet closes (100*(1 +- a few 1e-6)) for every close/low/high-reading indicator incl. the documented defaults; one-price: all 5^{} scalar sequences over {{1,2.5,0.1,7,-3}} and over {{1, 0.75, 0.75+1ulp, 2e-17, 3e-17}} for FAST_STOCH/SLOW_STOCH/TR/ATR/KC n in {{1,2,3,5}}; DataItem: all 12^{} sequences of valid bars (incl. open/close within 1e-9 of an extreme)", if th { 7 } else { 6 }, if th { 5 } else { 4 });
     res.assumptions = vec!["minimal-trait user types (CloseOnly, Hlc, ...) are compiled and run by the separate /verif/surface crate as part of this check".into()];
     res
 }
